@@ -1,6 +1,8 @@
 """C10 - per-point / per-group node semantics and sibling isolation (spec/Nodes)."""
+import concurrent.futures
 import os
 import re
+import time
 
 import verifylib as V
 
@@ -16,11 +18,47 @@ _RE_AMB = re.compile(r'"AMB-SKIPPED-SINKS", (\d+)')
 _RE_DRIFT = re.compile(r'"DRIFT"')
 
 
-def _validate(sc, R, files):
-    val = V.validate_traces(sc, "Nodes", "NodesTraceMC.tla", "NodesTrace.cfg", files, timeout=1500)
-    R.states += val["states"]
-    R.handle_validation(val)
-    return val
+JVM_VALIDATE = {"JAVA_TOOL_OPTIONS": "-Xmx2g -XX:ParallelGCThreads=2 -Xss64m"}
+JVM_MODEL = {"JAVA_TOOL_OPTIONS": "-Xmx6g -XX:ParallelGCThreads=4 -Xss64m"}
+PARALLEL = 12
+
+
+def _validate(sc, files):
+    """V.validate_traces, but keeping what the trace spec prints about skipped sinks and drift.
+    (-Xss64m: the reference is a deep composition of lazily evaluated functions; TLC's default
+    thread stack overflows on batches of 6 points.)"""
+    parts = []
+    for f in files:
+        parts += V.split_trace(f, PARALLEL, sc)
+    rej, kf, states, amb, drift = [], set(), 0, 0, 0
+
+    def one(fp):
+        ee = dict(JVM_VALIDATE)
+        ee["TRACE_FILE"] = fp
+        return fp, V.run_tlc(sc, "Nodes", "NodesTraceMC.tla", "NodesTrace.cfg", workers=1, timeout=1500, env_extra=ee)
+
+    t = time.time()
+    with concurrent.futures.ThreadPoolExecutor(max_workers=PARALLEL) as ex:
+        for fp, res in ex.map(one, parts):
+            states += res["distinct"]
+            kf.update(res["kf"])
+            for m in _RE_AMB.finditer(res["out"]):
+                amb += int(m.group(1))
+            drift += len(_RE_DRIFT.findall(res["out"]))
+            if res["rejected_at"] is not None:
+                rej.append((fp, res["rejected_at"], res))
+            elif res["violated"]:
+                rej.append((fp, None, res))
+            elif "Postcondition" in res["out"] and "is false" in res["out"]:
+                rej.append((fp, None, res))
+    V.log("trace validation Nodes/NodesTrace.cfg: %d file(s), %d spec states, %d rejection(s), %.1fs" %
+          (len(parts), states, len(rej), time.time() - t))
+    return {"accepted": not rej, "rejections": rej, "kf": kf, "states": states, "amb": amb, "drift": drift}
+
+
+def _model(sc, cfg, workers=8, timeout=1500):
+    res = V.run_tlc(sc, "Nodes", "NodesMC.tla", cfg, workers=workers, timeout=timeout, env_extra=JVM_MODEL)
+    return res
 
 
 def run(sc, tier, seed):
@@ -28,23 +66,30 @@ def run(sc, tier, seed):
     V.build_harness()
     # design level: pipelined node processes with shared message objects = composition of the operators
     cfg = "Nodes_quick.cfg" if tier == "quick" else "Nodes_thorough.cfg"
-    R.add_model(V.model_check(sc, "Nodes", "NodesMC.tla", cfg, timeout=1500))
+    res = _model(sc, cfg)
+    if res["violated"] or not res["completed"]:
+        raise V.Broken("model Nodes/%s is inconsistent (%s):\n%s" % (cfg, res["violated"], V._tail(res["out"], 60)))
+    V.log("model Nodes/%s: %d states, %d distinct, %.1fs" % (cfg, res["states"], res["distinct"], res["wall"]))
+    R.add_model(res)
     # the seeded aliasing bug must be found by the same invariants (otherwise they are vacuous)
-    bad = V.run_tlc(sc, "Nodes", "NodesMC.tla", "Nodes_inplace.cfg", workers=8, timeout=600)
+    bad = _model(sc, "Nodes_inplace.cfg", workers=4, timeout=600)
     if bad["violated"] not in ("NoSiblingInterference", "ImplMatchesRef"):
-        raise V.Broken("Nodes_inplace.cfg: the in-place mutation model was not rejected (violated=%r)" % bad["violated"])
+        raise V.Broken("Nodes_inplace.cfg: the in-place update model was not rejected (violated=%r)" % bad["violated"])
     V.log("model Nodes/Nodes_inplace.cfg: in-place update rejected by %s as expected" % bad["violated"])
     # B1: systematic chains and forks on real tasks, every sink compared by TLC
     out, meta = V.run_driver(sc, "c10", tier, seed, timeout=3000)
     R.add_meta(meta)
-    val = _validate(sc, R, meta["trace_files"])
-    extra = {"amb_skipped_sinks": 0}
+    val = _validate(sc, meta["trace_files"])
+    R.states += val["states"]
+    R.handle_validation(val)
+    extra = {"amb_skipped_sinks": val["amb"], "impl_drift": {"message_changed_after_delivery_in_chain": val["drift"]},
+             "inplace_model_rejected_by": bad["violated"]}
     return R.finish("model_checking", ASSUME, extra_cov=extra)
 
 
 def replay(sc, path):
     seg = os.path.join(path, "segment.ndjson")
-    val = V.validate_traces(sc, "Nodes", "NodesTraceMC.tla", "NodesTrace.cfg", [seg])
+    val = _validate(sc, [seg])
     if val["accepted"]:
         print("replay: segment is accepted by the current specification")
         return 0
